@@ -4,7 +4,9 @@ Import ListNotations.
 From Verif Require Import Base.Val C42.Model_C42 C43.Model_C43 C43.Spec_C43 C43.Proofs_C43.
 
 (* a successful collapse gives, for the class and for every key, the value of the nearest
-   definition in breadth-first (level) order of the inheritance tree *)
+   definition in breadth-first (level) order of the inheritance tree — [nearest] quantifies over
+   every value v, so the nearest definition is returned regardless of what the value is
+   (empty string, False, empty list included) *)
 Theorem nearest_definition : forall e name c cfg,
   collapse e name = inr (c, cfg) ->
   exists order, LevelOrder e [root e name] order
@@ -12,6 +14,13 @@ Theorem nearest_definition : forall e name c cfg,
     /\ forall k, nearest (fun s => assoc k (s_keys s)) order (cfg k).
 Proof. exact nearest_definition_proof. Qed.
 Print Assumptions nearest_definition.
+
+(* in particular the section's own setting is returned whatever its value (falsy or not) *)
+Theorem own_setting_wins : forall e name c cfg k v,
+  collapse e name = inr (c, cfg) ->
+  assoc k (s_keys (head_sec (root e name))) = Some v -> cfg k = Some v.
+Proof. exact own_setting_wins_proof. Qed.
+Print Assumptions own_setting_wins.
 
 (* the worklist visits the sections level by level, left to right (any fuel, any start entry) *)
 Theorem bfs_order_characterisation : forall e fuel name st order,
